@@ -84,6 +84,23 @@ def _families(mod, expr, depth=3):
     return out
 
 
+def decompressors_drain(chk, repo, rule):
+    mod = repo.module(IO)
+    # streaming decompressors consume everything they are fed
+    n_dec = 0
+    for f in mod.functions.values():
+        if not f.qualname.endswith("_decompress"):
+            continue
+        for c in calls_in(f.node):
+            if isinstance(c.func, ast.Attribute) and c.func.attr == "decompress" and isinstance(c.func.value, ast.Name) and c.func.value.id not in mod.imports:
+                n_dec += 1
+                limited = len(c.args) >= 2 or any(k.arg in ("max_length", "max_output_size") for k in c.keywords)
+                drains = any(isinstance(x, ast.Attribute) and x.attr in ("needs_input", "eof", "unused_data", "unconsumed_tail") for x in walk_body(f.node))
+                chk.check(not limited or drains, rule, f, stmt_of(c), f"{f.qualname} limits the output of each decompress() call but never drains what the decompressor holds back: chunks that expand to more than one buffer are truncated on load",
+                          site_text=f"{f.qualname}: decompress() output not truncated", site={"function": f.qualname, "rule": "decompressor drained"})
+    chk.floor(rule, "streaming decompress calls", n_dec, 3)
+
+
 def r1_codec_table(chk, repo):
     chk.describe("C03.R1", "each compressor name is paired with compress / decompress / streaming-decompress code of that same codec library; save and load use the same table key")
     mod = repo.module(IO)
@@ -114,6 +131,7 @@ def r1_codec_table(chk, repo):
     l_sub = [n for n in walk_body(ld.node) if isinstance(n, ast.Subscript) and isinstance(n.value, ast.Subscript) and norm(n.value.value) == "COMPRESSORS"]
     chk.check(len(s_sub) == 1 and norm(s_sub[0].slice) == "'compress'" and norm(s_sub[0].value.slice) == "compressor", "C03.R1", sv, None, "_save_file does not use COMPRESSORS[compressor]['compress']", site_text="_save_file: COMPRESSORS[compressor]['compress']")
     chk.check(len(l_sub) == 1 and norm(l_sub[0].slice) in ("'_decompress'", "'decompress'") and norm(l_sub[0].value.slice) == "compressor", "C03.R1", ld, None, "_load_file does not use the decompressor of COMPRESSORS[compressor]", site_text="_load_file: COMPRESSORS[compressor]['_decompress']")
+    decompressors_drain(chk, repo, "C03.R1")
     # compressor name travels through the metadata
     fsv = repo.func("FileSaver._save_chunk", FILES)
     chk.check(any(k.arg == "compressor" and norm(k.value) == "self.md['compressor']" for c in calls_in(fsv.node) for k in c.keywords), "C03.R1", fsv, None, "chunks are not compressed with the compressor recorded in the metadata", site_text="FileSaver._save_chunk: compressor=self.md['compressor']")
@@ -431,6 +449,9 @@ def r6_rechunker_conservation(chk, repo):
 
 
 WITNESSES = [
+    W("bz2 stream truncated at one buffer per read", "C03.R1", IO,
+      "decompressor = bz2.BZ2Decompressor()\n    data = bytearray()  # Efficient mutable storage\n    for d in iter(lambda: f.read(buffer_size), b\"\"):\n        data.extend(decompressor.decompress(d))",
+      "decompressor = bz2.BZ2Decompressor()\n    data = bytearray()  # Efficient mutable storage\n    for d in iter(lambda: f.read(buffer_size), b\"\"):\n        data.extend(decompressor.decompress(d, max_length=buffer_size))"),
     W("lz4 entry uses the bz2 streaming decompressor", "C03.R1", IO,
       "lz4=dict(compress=lz4.compress, decompress=lz4.decompress, _decompress=_lz4_decompress)", "lz4=dict(compress=lz4.compress, decompress=lz4.decompress, _decompress=_bz2_decompress)"),
     W("zstd entry compresses with blosc", "C03.R1", IO,
